@@ -455,6 +455,29 @@ fn main() {
             let budget = args.get(4).and_then(|s| s.parse().ok()).unwrap_or(30);
             cmd_minimize(&args[2], &args[3], budget)
         }
+        "dbg-src" => {
+            // terasim dbg-src <source> [<source2> ...]: register t0, t1, ... and render each with
+            // the rich context (a quick way to ask the engine what it does with a text)
+            let srcs: Vec<String> = args[2..].to_vec();
+            on_big_stack(move || {
+                let mut t = tera::Tera::default();
+                let items: Vec<(String, String)> = srcs.iter().enumerate().map(|(i, s)| (format!("t{}", i), s.clone())).collect();
+                match t.add_raw_templates(items.iter().map(|(a, b)| (a.as_str(), b.as_str()))) {
+                    Err(e) => println!("ADD ERR: {}", e),
+                    Ok(()) => {
+                        let rng = rng::Rng::new(1);
+                        let ctx = sval::gen_context(&rng, 0).to_context();
+                        for (n, _) in &items {
+                            match std::panic::catch_unwind(std::panic::AssertUnwindSafe(|| t.render(n, &ctx))) {
+                                Ok(r) => println!("{} => {:?}", n, r.map_err(|e| e.to_string())),
+                                Err(_) => println!("{} => PANIC", n),
+                            }
+                        }
+                    }
+                }
+            });
+            0
+        }
         "dbg-cost" => {
             let (_rf, scn) = load_replay(&args[2]);
             if let Scn::Reg(sc) = scn {
